@@ -126,15 +126,16 @@ def opsC07 : Handler := fun st fields =>
     some (st, "ok\t" ++ out)
   -- C06's interpreter with C07's unit rule as its `unitRule` parameter
   | ["c07.attach", f, v, om, shapesS, sizeS] =>
-    match Generated.ruleRows.find? (fun r => r.func == f && r.variant == v && r.outMode == om && !r.raised),
-          Generated.traceRows.find? (fun r => r.func == f && r.variant == v) with
-    | some rule, some fwd =>
+    match Generated.ruleRows.filter (fun r => r.func == f && r.variant == v && r.outMode == om && !r.raised),
+          Generated.traceRows.find? (fun r => r.func == f && r.variant == v && !r.raised && !r.calls.isEmpty) with
+    | [rule], some fwd =>
       let env := c07Env (c07Shapes shapesS) rule.operands (sizeS.toNat?.getD 1)
       let args : Np.Args String := fwd.params.map fun (p, _) => (p, Np.PyVal.qty p "u")
       match runWithRule (fun g a => Np.renderCall g a) (fun p => Np.PyVal.qty ("?" ++ p) "u") (fun r => r) fwd rule env args with
       | .value u r => some (st, s!"ok\t{u}\t{r}")
       | .raised e => some (st, s!"ok\traised\t{e}")
       | .noKernel => some (st, "ok\tnokernel")
+    | _ :: _ :: _, _ => some (st, "ambiguous")
     | _, _ => some (st, "norow")
   | _ => none
 
